@@ -4,6 +4,20 @@ import json, os
 PENDING = "check not built yet in this session; see DESIGN.md section 3 for the planned static rules"
 
 CHECKS = {
+ "C17": dict(
+    category="other",
+    text="Decides, for every path of every allocating function (hence for every failure index of every input, which a fixed fault history per "
+         "function cannot give): no exit with a live block, no double free, no use after free, NULL tested before use and turned into "
+         "E_MEMORY_ALLOC; every caller of a function that may return E_MEMORY_ALLOC propagates it; the iterator-owned bounding boxes follow their "
+         "ownership protocol (freed once, field nulled, error implies destroyed, creators release or hand over); with H3_ALLOC_PREFIX no raw "
+         "allocator call remains. Not decided: 'results identical with the default allocator'.",
+    design_ref="DESIGN.md 2.4 R-ALLOC/R-ERRPROP/R-OWN, 3 C17, 4.1",
+    note="Typestate is path-sensitive on pointer nullness, phi-of-constant flags and compares with constants; other conditions are explored both ways "
+         "(no condition of these functions depends on whether an earlier block is still allocated). Parameter summaries (use/free/escape) are computed "
+         "by the same engine. Trusts the clang front end and the fixed opt pass list. The two genuine defects found (dropped gridDisk failures) were "
+         "repaired in /repo by fix: commits bc7d3fd4 and 1928b379 and are listed as fixed in known_findings.txt.",
+    technique="static analysis: ESP-style allocation typestate + error-code propagation fixpoint + ownership-protocol rules over LLVM IR, three build configurations",
+ ),
  "C18": dict(
     category="proof",
     text="Whole property decided from the program text: the linked library module has no instruction that writes, memsets, "
